@@ -113,7 +113,13 @@ fn check_step(vm: &mut Vm, s: &ScriptStep) -> Option<StepFailure> {
             Ok(Ok(c)) if want.matches(&cell_to_sx(&c)) => {}
             Err(p) => return Some(StepFailure { kind: "panic", detail: format!("after {}: reading {} panicked: {}", s.form, name, p) }),
             Ok(other) => {
-                let kind = if s.mutator { "wrong-content" } else { "unexpected-mutation" };
+                let kind = if s.stored.as_deref() == Some(name.as_str()) {
+                    "wrong-result"
+                } else if s.mutator {
+                    "wrong-content"
+                } else {
+                    "unexpected-mutation"
+                };
                 return Some(StepFailure { kind, detail: format!("after {}: {} = {}, expected {}", s.form, name, show(&other), want) });
             }
         }
@@ -144,7 +150,8 @@ pub struct RunInfo {
 }
 
 /// Execute the script. `text` is the readable (and re-readable) form of the case.
-pub fn run_script(ctx: &Ctx, id: &str, kind: &str, script: &Script, text: &str, info: &mut RunInfo) -> Outcome {
+/// `record`: count tolerated known findings in the statistics (off while a failing case is being minimised).
+pub fn run_script(ctx: &Ctx, id: &str, kind: &str, script: &Script, text: &str, info: &mut RunInfo, record: bool) -> Outcome {
     let render = json!({ "script": text });
     let mut vm = match guard(Vm::new) {
         Ok(vm) => vm,
@@ -167,7 +174,7 @@ pub fn run_script(ctx: &Ctx, id: &str, kind: &str, script: &Script, text: &str, 
         if let Some(f) = check_step(&mut vm, s) {
             let sig = format!("{}|{}|{}|{}", id, s.op, s.class, f.kind);
             if ctx.is_known(&sig) {
-                if ctx.counting() && ctx.known.lookup(&ctx.prop, &sig).is_some() {
+                if record && ctx.counting() && ctx.known.lookup(&ctx.prop, &sig).is_some() {
                     ctx.report(kind, json!({"script": text, "failing_form": s.form.to_string()}), &sig, &f.detail);
                 }
                 info.tolerated += 1;
@@ -189,4 +196,47 @@ pub fn script_text_of(payload: &Value) -> Option<String> {
         .as_str()
         .or_else(|| payload["render"]["script"].as_str())
         .map(|s| s.to_string())
+}
+
+thread_local! {
+    /// choice bytes of the failing case that is currently being reported
+    static LAST_FAIL: std::cell::RefCell<Option<Vec<u8>>> = const { std::cell::RefCell::new(None) };
+}
+
+/// proptest's byte-level shrinking is not used for operation sequences: a
+/// failing sequence is minimised structurally (step deletion) by the property
+/// itself, at once. During proptest's shrink phase every candidate other than
+/// the original bytes therefore passes without being executed.
+pub fn skip_shrink_candidate(ctx: &Ctx, bytes: &[u8]) -> bool {
+    if ctx.strict || ctx.counting() {
+        return false;
+    }
+    LAST_FAIL.with(|l| l.borrow().as_deref() != Some(bytes))
+}
+
+pub fn remember_failure(bytes: &[u8]) {
+    LAST_FAIL.with(|l| *l.borrow_mut() = Some(bytes.to_vec()));
+}
+
+/// Delete steps (last first, repeatedly) while `fails(steps)` keeps reporting `sig`.
+pub fn minimise<S: Clone, F: Fn(&[S]) -> Option<String>>(steps: &[S], sig: &str, fails: F) -> Vec<S> {
+    let mut cur: Vec<S> = steps.to_vec();
+    let mut budget = 400;
+    loop {
+        let mut changed = false;
+        let mut i = cur.len();
+        while i > 0 && budget > 0 {
+            i -= 1;
+            let mut cand = cur.clone();
+            cand.remove(i);
+            budget -= 1;
+            if fails(&cand).as_deref() == Some(sig) {
+                cur = cand;
+                changed = true;
+            }
+        }
+        if !changed || budget == 0 {
+            return cur;
+        }
+    }
 }
